@@ -14,6 +14,12 @@ TB = "Trusted base: rustc/cargo, the harness (reference models, error models of 
 CHECKS = {
  "C01": ("runtime monitoring: model-based oracle (VecDeque) over every Window observer at every ring phase of every capacity, unique labels; unsafe build with bounds hook; Miri",
          "Exploration with complete enumeration of the finite dimensions: all capacities 0..=254 x every ring phase x every observer (incl. every consumed prefix of both iterators in thorough), rebuild paths (from_parts at every index, serde, From<Vec>/From<Box>), adversarial serialized forms; re-run on the unsafe_performance build with the bounds hook and under Miri for small capacities. Right level: the state space of a Window with labelled elements is finite and small, so observing every reachable (capacity, phase) state decides the property for the code as built.", "§4 C01"),
+ "C14": ("runtime monitoring: definitional reference detectors vs the real ones, exhaustive short sequences over small alphabets + hostile long streams",
+         "Exploration: crossing detectors on all sequences of length 8 (10) over the four difference classes {-1,-0,+0,1} (complete for the two-step rule) plus random touch-heavy pairs of streams; reversal detectors on all sequences of length 9 (11) over 3-symbol alphabets for small (left,right), 400 stratified (thorough: all 32131) pairs x 800-step plateau/tie streams, and 1e5..1e6-step streams that cross the PeriodType capacity thousands of times. Oracle is the definition evaluated from scratch on the history.", "§4 C14"),
+ "C16": ("runtime monitoring: exhaustive enumeration of the finite Action algebra against its laws (513 actions, 513^2 pairs, 513^3 triples, all i8, all 2^32 f32 in thorough)",
+         "Exploration, exhaustive on the finite parts: every action, every pair (sub, eq, cmp), every triple (transitivity), every i8, every f32 bit pattern (thorough; 2^24 stratified in quick), every f64 rounding boundary +-8 ulps and specials, 2e5..1e6 random f64. The laws are the property's own (strength arithmetic in 1/255 units), not a copy of the code.", "§4 C16"),
+ "C18": ("runtime monitoring: formula oracles on every candle of an exhaustive special-value product and of generated streams; text-form round-trip and rejection fuzzing",
+         "Exploration with an exhaustive special-value product (10^4 price combinations x 11 volumes incl. NaN/-NaN/+-0/inf) for validate and the helper formulas, bit-exact checks of the single-operation helpers, interval check of clv, bit-exact tr_close identity, associativity of +, and text forms: all 8 sources, 15 MA kinds x all 256 lengths, thousands of arbitrary and near-miss strings that must be rejected without panic.", "§4 C18"),
 }
 
 NOT_YET = {}
